@@ -220,6 +220,11 @@ func Eq(a, b *Term) *Term {
 	if a.IsConst() && b.IsConst() {
 		return Bool(a.val.Cmp(b.val) == 0)
 	}
+	if a.sort == SInt {
+		if x, y, ok := natPair(a, b); ok {
+			return Eq(x, y)
+		}
+	}
 	if a.sort == SBool {
 		if a.IsConst() {
 			a, b = b, a
@@ -502,7 +507,27 @@ func IntBin(op string, a, b *Term) *Term {
 	return mk(op, SInt, a, b)
 }
 
+// natPair recognises comparisons between unsigned bit-vector values lifted to Int and keeps them in the bit-vector theory.
+func natPair(a, b *Term) (*Term, *Term, bool) {
+	if a.op == "bv2nat" && b.op == "bv2nat" && a.args[0].w == b.args[0].w {
+		return a.args[0], b.args[0], true
+	}
+	if a.op == "bv2nat" && b.IsConst() && b.val.Sign() >= 0 && b.val.BitLen() <= a.args[0].w {
+		return a.args[0], BV(a.args[0].w, b.val), true
+	}
+	if b.op == "bv2nat" && a.IsConst() && a.val.Sign() >= 0 && a.val.BitLen() <= b.args[0].w {
+		return BV(b.args[0].w, a.val), b.args[0], true
+	}
+	return nil, nil, false
+}
+
 func IntCmp(op string, a, b *Term) *Term {
+	if x, y, ok := natPair(a, b); ok {
+		return BVCmp(map[string]string{"<": "bvult", "<=": "bvule", ">": "bvugt", ">=": "bvuge"}[op], x, y)
+	}
+	if a.op == "bv2nat" && b.IsConst() && b.val.Sign() < 0 {
+		return Bool(op == ">" || op == ">=")
+	}
 	if a.IsConst() && b.IsConst() {
 		c := a.val.Cmp(b.val)
 		switch op {
